@@ -59,6 +59,8 @@ def run_shard(desc, ctx):
         run_case({'seed': [desc['seed'], desc['shard'], 4242], 'huge': True}, ctx)
     if desc['shard'] == 5:
         run_case({'seed': [desc['seed'], desc['shard'], 131313], 'many': True}, ctx)
+    if desc['shard'] == 10:
+        run_case({'seed': [desc['seed'], desc['shard'], 101010], 'million': True}, ctx)       # a first probe with more than 2**20 spikes
 
 
 def run_case(case, ctx, which='C11'):
@@ -72,6 +74,8 @@ def run_case(case, ctx, which='C11'):
 def build(case):
     rng = np.random.default_rng(case['seed'])
     k = int(rng.choice([1, 2, 2, 3, 3, 4]))
+    if case.get('million'):
+        k = 2
     if case.get('many'):
         k = case['many'] if isinstance(case['many'], int) and case['many'] > 1 else 130                # more probes than a signed byte (130) / a byte (260) can number
     if case['seed'][2] % 40 == 17:
@@ -178,6 +182,23 @@ def build(case):
         specs[0].spike_samples = sm.astype(specs[0].spike_samples.dtype)
     if k >= 2 and rng.random() < 0.1 and nonfinite < 0 and not case.get('finite_only'):      # (C14: amplitudes of a signal-free template are 0/0)
         specs[-1].templates[-1] = 0             # the very last template of the last probe has no signal at all
+    if case.get('million'):
+        # probe 0 is inflated to 2**20 + 700 spikes (one every other sample); probe 1 has spikes that tie with probe 0's spikes
+        # number 2**20 - 1, 2**20 and 2**20 + 1
+        s0, s1 = specs[0], specs[1]
+        N = 2 ** 20 + 700
+        rm = np.random.default_rng(7)
+        s0.spike_samples = (np.arange(N, dtype=np.int64) * 2).astype(s0.spike_samples.dtype)
+        s0.spike_templates = rm.integers(0, s0.n_templates, size=N).astype(s0.spike_templates.dtype)
+        s0.spike_clusters = s0.spike_templates.copy()
+        s0.amplitudes = rm.uniform(1, 20, size=N).astype(s0.amplitudes.dtype)
+        if s0.pc_features is not None:
+            s0.pc_features = np.zeros((N,) + s0.pc_features.shape[1:], dtype=s0.pc_features.dtype)
+        if s0.template_features is not None:
+            s0.template_features = np.zeros((N,) + s0.template_features.shape[1:], dtype=s0.template_features.dtype)
+        s0.tsv.clear()
+        t1 = np.sort(np.r_[np.asarray(s1.spike_samples, dtype=np.int64)[3:], [2 * (2 ** 20 - 1), 2 * 2 ** 20, 2 * (2 ** 20 + 1)]])
+        s1.spike_samples = t1.astype(s1.spike_samples.dtype)
     return specs, {'k': k, 'mat_mode': mat_mode, 'tsv_mode': tsv_mode, 'dt_ind': dt_ind}
 
 
